@@ -354,10 +354,37 @@ func TestC20(t *testing.T) {
 		}
 	}
 	// --- ccache parse errors (a cache holds session keys) ---
-	if ccb := ccacheWithKey(sess); ccb != nil {
+	for _, hdr := range []bool{false, true} {
+		ccb := ccacheWithKey(sess, hdr)
 		for n := 0; n < len(ccb); n += 1 {
 			var cc credentials.CCache
 			Protect(func() { ls.err("CCache.Unmarshal(truncated)", cc.Unmarshal(ccb[:n])) })
+		}
+		// corrupted files: every byte of the header area and of the length fields set to boundary values (a
+		// length that reaches over the keys makes whatever is dumped of the "field" hold them), random flips
+		for p := 2; p < len(ccb); p++ {
+			vals := []byte{0x00, 0x01, 0x08, 0x7f, 0xff}
+			if p >= 48 {
+				vals = []byte{byte(rng.Intn(256))}
+			}
+			for _, x := range vals {
+				if ccb[p] == x {
+					continue
+				}
+				c := append([]byte{}, ccb...)
+				c[p] = x
+				var cc credentials.CCache
+				Protect(func() { ls.err("CCache.Unmarshal(corrupted)", cc.Unmarshal(c)) })
+			}
+		}
+		// the same with the file grown by a tail (so that over-long announced lengths still fit in the file)
+		for p := 2; p < 48 && p < len(ccb); p++ {
+			for _, x := range []byte{0x01, 0x08, 0x10, 0x7f, 0xff} {
+				c := append(append([]byte{}, ccb...), make([]byte, 70000)...)
+				c[p] = x
+				var cc credentials.CCache
+				Protect(func() { ls.err("CCache.Unmarshal(corrupted, padded)", cc.Unmarshal(c)) })
+			}
 		}
 	}
 	v.Note(fmt.Sprintf("outputs searched: %d (%d bytes) for %d secrets in %d forms", ls.outputs, ls.bytes, len(ls.secrets), len(ls.secrets[0].forms)))
@@ -367,9 +394,14 @@ func TestC20(t *testing.T) {
 }
 
 // ccacheWithKey renders a version 4 cache with one credential holding the key (by the independent writer's layout).
-func ccacheWithKey(k types.EncryptionKey) []byte {
+func ccacheWithKey(k types.EncryptionKey, header bool) []byte {
 	var b bytes.Buffer
 	b.Write([]byte{5, 4, 0, 0})
+	if header {
+		// the usual header: one field, tag 1 (KDC time offset), 8 bytes
+		b.Reset()
+		b.Write([]byte{5, 4, 0, 12, 0, 1, 0, 8, 0, 0, 0, 0, 0, 0, 0, 0})
+	}
 	pr := func(comps ...string) {
 		b.Write([]byte{0, 0, 0, 1, 0, 0, 0, byte(len(comps))})
 		r := "TEST.GOKRB5"
